@@ -818,10 +818,8 @@ impl<'a> Lexer<'a> {
                                 {
                                     value.push(ch);
                                 }
-                            } else if let Some(hex) = self.scan_hex_escape(4)
-                                && let Some(ch) = char::from_u32(hex)
-                            {
-                                value.push(ch);
+                            } else if let Some(hex) = self.scan_hex_escape(4) {
+                                self.push_code_unit(&mut value, hex);
                             }
                         }
                         Some((_, '\n')) => {
@@ -841,6 +839,35 @@ impl<'a> Lexer<'a> {
         }
 
         TokenKind::String(self.string_dict.get_or_insert(&value))
+    }
+
+    /// Append the character denoted by a `\uXXXX` escape.  Strings hold Unicode scalar values:
+    /// a high surrogate followed by a `\uDC00`-`\uDFFF` escape is the one character the pair
+    /// encodes; a lone surrogate becomes U+FFFD.
+    fn push_code_unit(&mut self, value: &mut String, unit: u32) {
+        if (0xD800..=0xDBFF).contains(&unit) {
+            let checkpoint = self.checkpoint();
+            if self.peek() == Some('\\') {
+                self.advance();
+                if self.peek() == Some('u') {
+                    self.advance();
+                    if let Some(low) = self.scan_hex_escape(4)
+                        && (0xDC00..=0xDFFF).contains(&low)
+                        && let Some(ch) =
+                            char::from_u32(0x10000 + ((unit - 0xD800) << 10) + (low - 0xDC00))
+                    {
+                        value.push(ch);
+                        return;
+                    }
+                }
+            }
+            self.restore(checkpoint);
+            value.push('\u{FFFD}');
+        } else if let Some(ch) = char::from_u32(unit) {
+            value.push(ch);
+        } else {
+            value.push('\u{FFFD}');
+        }
     }
 
     fn scan_hex_escape(&mut self, count: usize) -> Option<u32> {
@@ -976,11 +1003,7 @@ impl<'a> Lexer<'a> {
                                     return TokenKind::Invalid('u');
                                 }
                             } else if let Some(hex) = self.scan_hex_escape(4) {
-                                if let Some(ch) = char::from_u32(hex) {
-                                    value.push(ch);
-                                } else {
-                                    return TokenKind::Invalid('u');
-                                }
+                                self.push_code_unit(&mut value, hex);
                             } else {
                                 return TokenKind::Invalid('u');
                             }
@@ -1074,11 +1097,7 @@ impl<'a> Lexer<'a> {
                                 return TokenKind::Invalid('u');
                             }
                         } else if let Some(hex) = self.scan_hex_escape(4) {
-                            if let Some(ch) = char::from_u32(hex) {
-                                value.push(ch);
-                            } else {
-                                return TokenKind::Invalid('u');
-                            }
+                            self.push_code_unit(&mut value, hex);
                         } else {
                             return TokenKind::Invalid('u');
                         }
